@@ -108,14 +108,20 @@ def check(ctx: Ctx) -> None:
             ob.violation(fir, fir.node, f"_thread_receiver is referenced from {refs}", construct=f"refs {refs}")
         # bootstrap handshake reads precede Gateway(io, spec)
         fb = repo.func("gateway_bootstrap.bootstrap")
-        cfg = build_cfg(repo, fb, Oracle(repo, fb, precise=True))
-        ctor = cfg_nodes_with_call(cfg, lambda c: unparse(c.func).endswith("Gateway"))
-        boots = cfg_nodes_with_call(cfg, lambda c: isinstance(c.func, ast.Name) and c.func.id.startswith("bootstrap_"))
-        ob.require(len(ctor) == 1 and len(boots) >= 3, "bootstrap(): Gateway construction / bootstrap_* calls not found")
-        p = cfg.must_pass([cfg.entry.id], [ctor[0].id], {b.id for b in boots})
-        ob.site(fb, ctor[0].ast, "handshake (bootstrap_*) completes before the receiver thread exists")
-        if p is not None:
-            ob.violation(fb, ctor[0].ast, "a Gateway (and its receiver thread) can be created before the bootstrap handshake read", path=cfg.describe_path(p))
+        from ..terms import evaluator as _ev
+        evb = _ev(repo, fb)
+        nctor = 0
+        for (pth, st) in evb.run(limit=4000):
+            calls = [e for e in st.events if e.kind == "call"]
+            ctor = [e for e in calls if (e.callee or "").endswith("Gateway")]
+            for c in ctor:
+                nctor += 1
+                done = any((e.callee or "").startswith("bootstrap_") and not e.raised and calls.index(e) < calls.index(c) for e in calls)
+                if nctor == 1:
+                    ob.site(fb, c.node, "handshake (bootstrap_*) completes before the receiver thread exists")
+                if not done:
+                    ob.violation(fb, c.node, "a Gateway (and its receiver thread) can be created before the bootstrap handshake read", path=evb.cfg.describe_path(pth))
+        ob.require(nctor >= 3, "bootstrap(): Gateway construction / bootstrap_* calls not found")
 
     with ctx.obligation("C02.b", "dispatch-table") as ob:
         ob.require(len(reg) == 8, f"{len(reg)} registered message handlers (floor 8)")
